@@ -340,7 +340,13 @@ func (r *resource) ResetEvent() {
 func (r *resource) QueryEvent(cb func(QueryRequest)) {
 	qsubj := nats.NewInbox()
 	ch := make(chan *nats.Msg, queryEventChannelSize)
-	sub, err := r.s.nc.ChanSubscribe(qsubj, ch)
+	nc := r.s.conn()
+	if nc == nil {
+		cb(nil)
+		r.s.errorf("Failed to subscribe to query event: %s", errNotStarted)
+		return
+	}
+	sub, err := nc.ChanSubscribe(qsubj, ch)
 	if err != nil {
 		cb(nil)
 		r.s.errorf("Failed to subscribe to query event: %s", err)
